@@ -44,6 +44,11 @@ def drive(tier):
             cases.append((t[:i], b"\x51", ()))
             cases.append((b"\x51", t[:i], ()))
             cases.append((bytes(CScript([t[:i]])), bytes(CScript([0xa9, Hash160(t[:i]), 0x87])), ("P2SH",)))
+    for n in (1001, 1002, 1100, 1200, 1500):
+        for tail in (b"\x4c", b"\x4d\x05", b"\x6a", b"\xff", b"\x05\x01", b"\x75" * 3 + b"\x6a"):
+            cases.append((b"\x00" * n + tail, b"\x51", ()))
+            cases.append((b"\x51", b"\x01\x07" * n + tail, ()))
+            cases.append((b"\x00" * (n - 600), b"\x00" * 600 + tail, ("P2SH",)))
     while len(cases) < N:
         c = r.randrange(10)
         if c < 6:
